@@ -469,3 +469,131 @@ def loaded_sections(doc):
     m = {'meta': doc.meta, 'scripts': doc.scripts, 'font-face-decls': doc.fontfacedecls, 'settings': doc.settings,
          'styles': doc.styles, 'automatic-styles': doc.automaticstyles, 'master-styles': doc.masterstyles, 'body': doc.body}
     return dict((k, [X.walk(c) for c in v.childNodes]) for k, v in m.items())
+
+
+# ------------------------------------------------------------------------------------------- correspondence with drv_load
+def real_fix(text):
+    """the real __fixXmlPart (module-level name with two leading underscores)"""
+    import odf.opendocument
+    return odf.opendocument.__dict__['__fixXmlPart'](text)
+
+
+def record_events_safe(data):
+    """(events delivered before a parse error, error text | None)"""
+    p = xml.sax.make_parser()
+    p.setFeature(xml.sax.handler.feature_namespaces, 1)
+    p.setFeature(xml.sax.handler.feature_external_ges, 0)
+    r = Recorder()
+    p.setContentHandler(r)
+    src = xml.sax.xmlreader.InputSource()
+    src.setByteStream(io.BytesIO(data))
+    try:
+        p.parse(src)
+    except xml.sax.SAXParseException as e:
+        return r.events, str(e)
+    return r.events, None
+
+
+_CONV = {}
+
+
+def convert_events(events):
+    """attribute values as Element.setAttrNS stores them: through the real AttrConverters.convert (C15's subject, a
+    parameter of the load model).  Raises what the converter raises."""
+    from odf.attrconverters import AttrConverters
+    from odf.element import Element
+    c = AttrConverters()
+    out = []
+    for ev in events:
+        if ev[0] == 'S' and ev[3]:
+            q = (ev[1], ev[2])
+            el = _CONV.get(q)
+            if el is None:
+                el = _CONV[q] = Element(qname=(ev[1] if ev[1] else None, ev[2]), check_grammar=False)
+            at = []
+            for (ans, al, v) in ev[3]:
+                at.append((ans, al, u'%s' % (c.convert((ans if ans else None, al), v, el),)))
+            out.append(('S', ev[1], ev[2], at))
+        else:
+            out.append(ev)
+    return out
+
+
+def parts_of_document(pkg, folder=u''):
+    """[(member name, bytes)] in the order __loadxmlparts reads them"""
+    out = []
+    for part in (u'settings.xml', u'meta.xml', u'content.xml', u'styles.xml'):
+        n = folder + part
+        if n in pkg.mdict and n in pkg.data:
+            out.append((n, pkg.data[n]))
+    return out
+
+
+def model_lines(parts_events):
+    lines = ['new']
+    for name, evs in parts_events:
+        lines.append('part ' + enc_str(name))
+        lines.extend(wire_event(e) for e in evs)
+        lines.append('endpart')
+    lines.append('dump')
+    return lines
+
+
+def model_sections(drv, parts_events):
+    """run the model on the event streams of the parts of one document -> ({section: [trees]}, crashed?)"""
+    ans = drv.batch(model_lines(parts_events))
+    crashed = any(a.startswith('err') for a in ans[:-1])
+    return unwire_sections(ans[-1]), crashed, [a for a in ans[:-1] if a != 'ok'][:3]
+
+
+def rechunk(events, rng):
+    """the same stream with the character data cut differently (merged, split, empty chunks)"""
+    out = []
+    buf = None
+    def emit(s):
+        while True:
+            if rng.random() < 0.1:
+                out.append(('C', u''))
+            if not s:
+                break
+            n = rng.randint(1, len(s))
+            out.append(('C', s[:n])); s = s[n:]
+    for ev in events:
+        if ev[0] == 'C':
+            buf = (buf or u'') + ev[1]
+        else:
+            if buf is not None:
+                emit(buf); buf = None
+            out.append(ev)
+    if buf is not None:
+        emit(buf)
+    return out
+
+
+def correspond_document(chk, drv, pkg, folder, real, case, rng=None):
+    """model vs real LoadParser for one (sub-)document of a package: the sections after all parts were read.
+    `real` = loaded_sections(document), taken right after load() (a later save() moves the generator)"""
+    pe = []
+    for name, data in parts_of_document(pkg, folder):
+        text = data.decode('utf-8')
+        evs, err = record_events_safe(real_fix(text).encode('utf-8'))
+        try:
+            evs = convert_events(evs)
+        except Exception as e:      # the real load() raises the same (no document to compare with)
+            return 'converter raises: %s' % e
+        if rng is not None:
+            evs = rechunk(evs, rng)
+        pe.append((name, evs))
+    model, crashed, errs = model_sections(drv, pe)
+    chk.corr()
+    chk.count('corr_events', sum(len(e) for _, e in pe))
+    if crashed:
+        chk.corr_diff(case, 'loaded without exception', 'model: ' + ' '.join(errs), 'LoadParser model crashed on %r' % folder)
+        return 'crash'
+    for sec in SECTION_ORDER:
+        if model.get(sec) != real.get(sec):
+            a = ('E', u'', sec, [], real.get(sec) or []); b = ('E', u'', sec, [], model.get(sec) or [])
+            d = diff(a, b)[:1] or [X.first_diff(a, b)]
+            chk.corr_diff(case, repr(d)[:400], 'model differs', 'section %s of %r after load (real vs model)' % (sec, folder or '/'))
+            return 'diff'
+    return None
